@@ -134,18 +134,20 @@ MkResultL(st, s, sh, cells, os, lay) ==
 MkResult(st, s, sh, cells, os) == MkResultL(st, s, sh, cells, os, Iota(Len(cells)))
 
 \* memory layout NumPy gives the output of an elementwise operation on these operands ("K" order, lib/Arr)
-ElementwiseLayout(st, os, sh) ==
+\* prs : sequence of [imap, sh] (one per array operand), aligned to the right of the n result axes
+LayoutFrom(prs, sh) ==
   LET n == Len(sh)
-      arrs == SelectIdx(Len(os), LAMBDA i : Len(OpSh(st, os[i])) > 0 /\ Size(OpSh(st, os[i])) > 1)
-      \* a tensor operand's strides follow from its index map; an inline array operand is C-contiguous
-      opst == [k \in 1..Len(arrs) |->
-                 LET o == os[arrs[k]] IN
-                 IF IsH(o) THEN AlignedStrides(st.H[o.h].imap, st.H[o.h].sh, n)
-                 ELSE AlignedStrides(Iota(Size(o.arr.sh)), o.arr.sh, n)]
+      arrs == SelectIdx(Len(prs), LAMBDA i : Len(prs[i].sh) > 0 /\ Size(prs[i].sh) > 1)
+      opst == [k \in 1..Len(arrs) |-> AlignedStrides(prs[arrs[k]].imap, prs[arrs[k]].sh, n)]
   IN IF n < 2 \/ Size(sh) < 2 \/ Len(arrs) = 0 THEN Iota(Size(sh))
      ELSE LET perm == KOrderPerm(n, opst)
               ost == KOrderStrides(sh, perm)
           IN [p \in 1..Size(sh) |-> LET oi == Unravel(p, sh) IN 1 + SeqSum([a \in 1..n |-> oi[a] * ost[a]])]
+\* a tensor operand's strides follow from its index map; an inline array operand is C-contiguous
+OpPair(st, o) == IF IsH(o) THEN [imap |-> st.H[o.h].imap, sh |-> st.H[o.h].sh]
+                 ELSE IF "arr" \in DOMAIN o THEN [imap |-> Iota(Size(o.arr.sh)), sh |-> o.arr.sh]
+                 ELSE [imap |-> <<1>>, sh |-> <<>>]
+ElementwiseLayout(st, os, sh) == LayoutFrom([i \in 1..Len(os) |-> OpPair(st, os[i])], sh)
 
 \* memory layout of the output of a reduction (ufunc.reduce allocates its output through the same iterator: the kept
 \* axes keep the relative memory order they have in the operand)
@@ -335,7 +337,7 @@ ApplyOp(st, s) ==
             flat == ~Has(kw, "axis")
             sh == IF flat THEN <<Size(sh0)>> ELSE sh0
             ax == IF flat THEN 0 ELSE NormAxis(kw.axis[1], Len(sh0))
-        IN MkResult(st, s, sh, CumCells(f, c, sh, ax), os)
+        IN MkResultL(st, s, sh, CumCells(f, c, sh, ax), os, IF flat THEN Iota(Size(sh)) ELSE ElementwiseLayout(st, os, sh))
     [] f \in {"addseq", "mulseq"} ->
         LET shs == [i \in 1..Len(os) |-> OpSh(st, os[i])] sh == BShapeAll(shs)
             cs == [i \in 1..Len(os) |-> OpCells(st, os[i])] gs == [i \in 1..Len(os) |-> BGather(shs[i], sh)]
@@ -395,7 +397,10 @@ ApplyOp(st, s) ==
             shs == IF f = "stack" THEN [i \in 1..Len(os) |-> ExpandShape(shs0[i], {ax})] ELSE shs0
             g == ConcatGather(shs, ax)
             cs == [i \in 1..Len(os) |-> OpCells(st, os[i])]
-        IN MkResult(st, s, ConcatShape(shs, ax), [p \in 1..Len(g) |-> cs[g[p][1]][g[p][2]]], os)
+            \* the output keeps the axis order of the operands' memory (np.concatenate sorts the axes by the operands' strides)
+            prs == [i \in 1..Len(os) |-> [imap |-> OpPair(st, os[i]).imap, sh |-> shs[i]]]
+        IN MkResultL(st, s, ConcatShape(shs, ax), [p \in 1..Len(g) |-> cs[g[p][1]][g[p][2]]], os,
+                     LayoutFrom(prs, ConcatShape(shs, ax)))
     [] f \in StructF ->
         LET a == os[1].h src == st.H[a]
             sh == StructShape(f, s, src.sh) g == StructGather(f, s, src.sh)
@@ -412,6 +417,7 @@ ApplyOp(st, s) ==
                                        \cup (IF emptydiag THEN {"F-C02-2"} ELSE {})]
         IN IF StructIsView(f, s, src, newimap, sh)
            THEN MkView(st0, s, a, sh, g)
+           ELSE IF f = "roll" THEN MkResultL(st0, s, sh, Gather(Cells(st, a), g), os, ElementwiseLayout(st, os, sh))   \* np.roll fills empty_like(a)
            ELSE MkResult(st0, s, sh, Gather(Cells(st, a), g), os)
 
 \* ------------------------------------------------------------------ leaves
